@@ -99,7 +99,7 @@ pub fn json_diff_path(a: &Value, b: &Value) -> Option<String> {
 }
 
 /// Set-valued fields (serialised as arrays in arbitrary order) are sorted before diffing.
-fn normalise_sets(v: &mut Value) {
+pub fn normalise_sets(v: &mut Value) {
     match v {
         Value::Object(m) => {
             for (k, x) in m.iter_mut() {
